@@ -142,11 +142,17 @@ func regoC01(c *checkCtx) {
 	progs = append(progs, regosym.FamilyQuantified(thorough)...)
 	if thorough {
 		progs = append(progs, regosym.FamilySkeletons(2)...)
+		var ks []int
+		for k := 1; k <= 30; k++ {
+			ks = append(ks, k)
+		}
+		progs = append(progs, regosym.FamilyVariableIndex(ks)...)
 	} else {
 		progs = append(progs, regosym.FamilySkeletons(1)...)
+		progs = append(progs, regosym.FamilyVariableIndex([]int{1, 11, 12, 22, 23, 24, 25, 26})...)
 	}
 	c.evidence["bounds_regosym"] = map[string]any{"nodes": n, "values_per_property": 2, "classes": "classes mentioned + 1", "literal_pool": "<= 4 literals derived from the program's constants + references to each node + one dangling reference",
-		"families": "atoms (every documented atomic constraint alone / under not / in or / in if-then), quantified (nested, atLeast/atMost 0..2 around small inner formulas, positive and negated), connective skeletons as YAML"}
+		"families": "atoms (every documented atomic constraint alone / under not / in or / in if-then), quantified (nested, atLeast/atMost 0..2 around small inner formulas, positive and negated), connective skeletons as YAML, variable-index (a nested-in-nested constraint whose outer quantified variable is the k-th of its validation)"}
 	outs, err := runPrograms(regoWork(c), progs, func(p regosym.Program) regosym.Scope { return regosym.ScopeFor(p, n, 2, 4) }, c.knownSignatures("C01.verdict-eq-reference"), 16)
 	if err != nil {
 		c.inconclusive("regosym: " + err.Error())
@@ -173,16 +179,22 @@ func regoC02(c *checkCtx) {
 	}
 	if c.tier == "thorough" {
 		// deeper expressions on a smaller graph
-		for _, p := range regosym.PathShapes(4, 2, false) {
+		for _, p := range regosym.PathShapes(4, 1, false) {
 			if regosym.Homogeneous(p) && regosym.Occurrences(p) == 4 {
 				paths = append(paths, p)
 			}
 		}
 	}
-	c.evidence["bounds_regosym"] = map[string]any{"path_expressions": len(paths), "predicate_occurrences": fmt.Sprintf("<= %d over 2 predicates (plus 4 occurrences in the thorough tier)", occ), "nodes": n, "values_per_property": 2,
+	c.evidence["bounds_regosym"] = map[string]any{"path_expressions": len(paths), "predicate_occurrences": fmt.Sprintf("<= %d over 2 predicates (plus every shape with 4 occurrences of one predicate, forward or inverse, in the thorough tier)", occ), "nodes": n, "values_per_property": 2,
 		"modes": "property set (constraint values), node set (nested), array (uniqueValues)", "skipped_mixed_last_step": skipped,
 		"graph_features": "cycles, self loops, diamonds, two routes to one node, literals in mid-path, dangling references, absent nodes"}
-	outs, err := runPaths(regoWork(c), paths, []string{"set", "nodes", "array"}, n, 2, 16)
+	nFor := func(p regosym.Path) int {
+		if regosym.Occurrences(p) >= 4 {
+			return 2 // deeper expressions on a smaller graph
+		}
+		return n
+	}
+	outs, err := runPaths(regoWork(c), paths, []string{"set", "nodes", "array"}, nFor, 2, 16)
 	if err != nil {
 		c.inconclusive("regosym: " + err.Error())
 		return
